@@ -31,6 +31,8 @@ def statics_used(fn):
 
 
 def run(ctx):
+    from rules import shared
+    ctx.include('month_records', shared.month_records)   # leap table, solstice anchor, month memo, memo cells (shared, cached per source hash)
     I = ctx.interp(fuel=80000000)
     t = T(I)
     p = ctx.prog
@@ -203,6 +205,47 @@ def run(ctx):
         return (cm.n_of(t.m(x1, 'get_solar_day')) - n0, I.values_equal(x1, x2), I.values_equal(t.m(ld, 'next', 0), ld))
     table(ctx, 'PETE-SCENARIO', 'LunarDay::next', [(k, d, a, b) for k in (2, 4, 5) for d in (1, 15, 29) for a in (-40, -1, 1, 31) for b in (-5, 0, 17)], ld_step,
           lambda x: (x[2] + x[3], True, True), 'lunar day stepping moves exactly n civil days; next(a).next(b) = next(a+b)', str, fn_site(p, 'LunarDay::next'))
+
+    # ---- weeks: stepping by n moves the first day by exactly 7n days, forwards and backwards, also into and out of leap months
+    def wday(n):
+        return (n + 1) % 7
+    cmw = CalModel(I, {}, synthetic_months(2023, CAL.jdn(2023, 1, 22), 3, leap={2023: 2, 2025: 6}, prev_months=2, auto_leap=False))
+
+    def sw(x):
+        y, m, i, start, n = x
+        w = I.call('SolarWeek::from_ym', [y, m, i, start])
+        f0 = cmw.n_of(t.m(w, 'get_first_day'))
+        w1 = t.m(w, 'next', n)
+        back = cmw.n_of(t.m(t.m(w1, 'next', -n), 'get_first_day'))
+        return (cmw.n_of(t.m(w1, 'get_first_day')) - f0, back - f0)
+    doms = [(y, m, i, st, n) for (y, m) in ((2021, 2), (2024, 2), (2026, 1), (2026, 12), (1582, 10)) for i in ((0, 3) if y != 1582 else (0, 2)) for st in (0, 1, 4) for n in (-9, -5, -1, 1, 4, 5, 9)]
+    table(ctx, 'CARRY', 'CARRY:SolarWeek::next', doms, sw, lambda x: (7 * x[4], 0), 'a civil week stepped by n starts exactly 7n days later; stepping back returns', str, fn_site(p, 'SolarWeek::next'))
+    recs = cmw.months
+    last_n = max(r['first'] + r['count'] for r in recs)
+    first_n = min(r['first'] for r in recs)
+    idxs = [k for k, r in enumerate(recs) if r['first'] - 80 > first_n and r['first'] + r['count'] + 80 < last_n]
+    near_leap = [k for k in idxs if recs[k]['month'] < 0 or recs[k - 1]['month'] < 0 or (k + 1 < len(recs) and recs[k + 1]['month'] < 0)]
+
+    def lw(x):
+        k, i, start, n = x
+        r = recs[k]
+        w = I.call('LunarWeek::from_ym', [r['year'], r['month'], i, start])
+        f0 = cmw.n_of(t.m(t.m(w, 'get_first_day'), 'get_solar_day'))
+        w1 = t.m(w, 'next', n)
+        f1 = cmw.n_of(t.m(t.m(w1, 'get_first_day'), 'get_solar_day'))
+        fb = cmw.n_of(t.m(t.m(t.m(w1, 'next', -n), 'get_first_day'), 'get_solar_day'))
+        return (f1 - f0, fb - f0)
+    doml = []
+    for k in sorted(set(near_leap + idxs[::3])):
+        r = recs[k]
+        for start in range(7):
+            cnt = ((wday(r['first']) - start) % 7 + r['count'] + 6) // 7
+            for i in (0, cnt - 1):
+                for n in (-6, -5, -1, 1, 5, 6):
+                    doml.append((k, i, start, n))
+    table(ctx, 'PETE-SCENARIO', 'LunarWeek::next', doml, lw, lambda x: (7 * x[3], 0), 'a lunar week stepped by n starts exactly 7n days later (forwards and backwards, into and out of leap months); stepping back returns',
+          lambda x: '%s-%s week=%d start=%d n=%d' % (recs[x[0]]['year'], recs[x[0]]['month'], x[1], x[2], x[3]), fn_site(p, 'LunarWeek::next'))
+    CalModel(I, typical_terms(range(Y - 1, Y + 6)), months)
 
     ctx.assumptions.append('lunar month table and civil day count replaced by scenario / oracle stand-ins (C02/C03, C01)')
     ctx.not_decided.append('group laws of lunar month / day stepping on the REAL lunar calendar (month records are numeric: C03)')
